@@ -254,7 +254,7 @@ def main(tier, seed):
         vp = os.path.join(wd, "values.cc")
         open(vp, "w").write("\n".join(lines))
         exe = os.path.join(wd, "values")
-        rc, out = cxx(vp, exe, compiler="clang++-14", std="c++14", san=True, opt="-O1")
+        rc, out = cxx(vp, exe, std="c++14", san="exact", opt="-O1")  # exact-count UBSan handlers: every offending x is counted
         if rc != 0:
             violations.append({"what": "value harness for permitted conversions does not compile", "class": "values-build", "no_input": True,
                                "broken": "harness / policy says permitted but conversion ill-formed", "rec": {"kind": "build", "out": out[-2000:]}})
